@@ -209,11 +209,17 @@ def _r1_one(run, R1, w, fi):
     # accumulating loop: <acc>.append(<translated or passed through>) under `for v in values`
     for nm_, ms in du.muts.items():
       if tn.id in ms:
+        readers = [m.id for m in cfg.nodes if m.stmt is not None and m.id not in ms and
+                   any(isinstance(y, ast.Name) and y.id == nm_ and isinstance(y.ctx, ast.Load)
+                       for e_ in m.exprs if e_ is not None for y in ast.walk(e_))]
         for d in du.defs.get(nm_, ()):
-          c2 = H.loop_as_comprehension(fn, du, rd, nm_, cfg.exit.id) \
-              if H.def_value(cfg, d) is not None else None
-          if c2 is not None and any(y is tc or text(y) == text(tc) for y in ast.walk(c2.elt)):
-            resv, tdef, comp = nm_, d, c2
+          if H.def_value(cfg, d) is None:
+            continue
+          for at_ in readers:
+            c2 = H.loop_as_comprehension(fn, du, rd, nm_, at_)
+            if c2 is not None and any(y is tc or text(y) == text(tc) for y in ast.walk(c2.elt)):
+              resv, tdef, comp = nm_, d, c2
+              break
   # what is translated comes from the values parameter: the parameter itself, or each element of a
   # comprehension over it with untranslated elements passed through unchanged
   src_ok = False
@@ -432,17 +438,20 @@ def r3_row_ids(run, w):
   # the filled ids are a copy of the requested ids (made before they are filled in), not the
   # requested list itself
   req = lambda x, d: isinstance(x, str) and x == ps[2] and d == ENTRY
-  fvals = [H.def_value(cfg, d) for d in fdefs]
+  forig = H.origin_defs(rd, filled, un.id)          # looking through plain copies of the list
+  fvals = [(H.def_value(cfg, d) if d != ENTRY else None, d) for d in forig]
   copy_ok = bool(fvals) and all(v is not None and not isinstance(v, ast.Name) and
                                 H.whole_of(fn, rd, v, d, req) is True
-                                for v, d in zip(fvals, fdefs))
+                                for (v, d) in fvals)
   ok = u_table is not None and H.canon(fn, u_table) == ps[1] and \
       isinstance(u_temp, ast.Name) and _is_param_itself(fn, du, rd, u_temp, un.id, ps[2]) and \
       filled != ps[2] and copy_ok and H.unrebound_at(fn, du, ps[1], un.id)
   run.ob(R3, fn.qualname, short(uc), "the map pairs the ids as requested (temporary ones "
          "included) with the ids filled in for the same positions", ok, fi=fn.fi, node=uc)
   # the fill loop is over before the map is recorded
-  fills = du.muts.get(filled, set()) if filled else set()
+  fills = set()
+  for nm_ in du.group(filled):
+    fills |= du.muts.get(nm_, set())
   ok = bool(fills) and not (cfg.reach_after({un.id}) & fills)
   run.ob(R3, fn.qualname, "%s filled before it is recorded" % filled, "the recorded final ids are "
          "final", ok, fi=fn.fi)
@@ -556,59 +565,104 @@ def r3_row_ids(run, w):
   # --- the map itself
   up = w.fn("action_summary.ActionSummary.update_new_rows_map")
   tr = w.fn("action_summary.ActionSummary.translate_new_row_ids")
-  def table_map(fn):
+  def map_attr(fn, e):
+    """Attribute name when e denotes self._forTable(<the table_id parameter>).<attr> (written
+    inline or through locals), else None."""
     p = fn.fi.params()[1]
-    tv = [s.targets[0].id for s in ast.walk(fn.node) if isinstance(s, ast.Assign) and
-          isinstance(s.value, ast.Call) and fn.name(s.value) == "self._forTable" and
-          [H.canon(fn, a) for a in H.norm(w, fn, s.value).args] == [p] and
-          isinstance(s.targets[0], ast.Name)]
-    attrs = {x.attr for x in ast.walk(fn.node) if isinstance(x, ast.Attribute) and
-             isinstance(x.value, ast.Name) and tv and x.value.id == tv[0]}
-    return attrs
-  a, b = table_map(up), table_map(tr)
-  run.ob(R3, "action_summary.ActionSummary", "update_new_rows_map / translate_new_row_ids share "
-         "self._forTable(table_id).%s" % "/".join(sorted(a)), "ids recorded for a table are "
-         "looked up in the same table's map", len(a) == 1 and a == b, nontrivial=True)
+    x = H.expand(fn, e, pure_only=False)
+    if isinstance(x, ast.Attribute) and isinstance(x.value, ast.Call) and \
+        isinstance(x.value.func, ast.Attribute) and x.value.func.attr == "_forTable" and \
+        text(x.value.func.value) == "self":
+      args = H.norm(w, fn, x.value).args
+      if len(args) == 1 and text(args[0]) == p and not DefUse(fn).rebinders(p):
+        return x.attr
+    return None
   # update: pairs (temp, final) positionally, keeps negatives
   ps = up.fi.params()
-  upd = [c for c in calls_in(up.node.body) if isinstance(c.func, ast.Attribute) and
-         c.func.attr == "update" and c.args and isinstance(c.args[0], ast.GeneratorExp)]
-  ok = False
-  if len(upd) == 1:
-    g = upd[0].args[0]
-    gen = g.generators[0]
-    ok = text(gen.iter) == "zip(%s, %s)" % (ps[2], ps[3]) and isinstance(gen.target, ast.Tuple) and \
-        text(g.elt) == text(gen.target) and len(gen.ifs) == 1
-    if ok:
-      t = gen.ifs[0]
-      parts = t.values if isinstance(t, ast.BoolOp) and isinstance(t.op, ast.And) else [t]
-      k = text(gen.target.elts[0])
-      ok = any(isinstance(x, ast.Compare) and text(x.left) == k and isinstance(x.ops[0], ast.Lt)
-               and H.const_value(x.comparators[0]) == (True, 0) for x in parts) and \
-          all((isinstance(x, ast.Name) and x.id == k) or
-              (isinstance(x, ast.Compare) and text(x.left) == k) for x in parts)
+  udu = DefUse(up)
+  urd = H.ReachDefs(up, udu)
+  upd = []
+  for (n, c, nm) in up.calls():
+    if isinstance(c.func, ast.Attribute) and c.func.attr == "update" and \
+        map_attr(up, c.func.value) and len(c.args) == 1 and not c.keywords:
+      arg, at = H.resolve(up, udu, urd, c.args[0], n.id)
+      upd.append((c, arg, map_attr(up, c.func.value)))
+  if len(upd) != 1 or not isinstance(upd[0][1], (ast.GeneratorExp, ast.ListComp, ast.DictComp)) \
+      or len(upd[0][1].generators) != 1:
+    raise AnalysisError("update_new_rows_map: <per-table map>.update(<pairs of zip(temp, final)>) "
+                        "not recognised")
+  uc, g, a = upd[0]
+  gen = g.generators[0]
+  pair = [g.key, g.value] if isinstance(g, ast.DictComp) else \
+      (list(g.elt.elts) if isinstance(g.elt, ast.Tuple) and len(g.elt.elts) == 2 else None)
+  it = H.expand(up, gen.iter)
+  zipped = isinstance(it, ast.Call) and dotted(it.func) == "zip" and \
+      [text(x) for x in it.args] == [ps[2], ps[3]] and not udu.rebinders(ps[2]) and \
+      not udu.rebinders(ps[3])
+  ok = zipped and pair is not None and isinstance(gen.target, ast.Tuple) and \
+      len(gen.target.elts) == 2 and [text(x) for x in pair] == [text(x) for x in gen.target.elts]
+  if ok:
+    k = text(gen.target.elts[0])
+    def negative(e):
+      """truth of atom e for a temporary (negative, hence truthy) id."""
+      if isinstance(e, ast.Name) and e.id == k:
+        return True
+      if isinstance(e, ast.Compare) and len(e.ops) == 1:
+        l, r, op = e.left, e.comparators[0], e.ops[0]
+        if text(r) == k and H.const_value(l) == (True, 0):
+          l, r = r, l
+          op = {ast.Lt: ast.Gt, ast.Gt: ast.Lt, ast.LtE: ast.GtE, ast.GtE: ast.LtE}.get(
+            type(op), type(op))()
+        if text(l) == k and H.const_value(r) == (True, 0):
+          return isinstance(op, (ast.Lt, ast.LtE, ast.NotEq))
+        if text(l) == k and H.const_value(r) == (True, None):
+          return isinstance(op, (ast.IsNot, ast.NotEq))
+      if isinstance(e, ast.Call) and dotted(e.func) == "isinstance" and len(e.args) == 2 and \
+          text(e.args[0]) == k and text(e.args[1]) in ("int", "six.integer_types"):
+        return True
+      return None
+    kept = [H.eval3(t, negative) for t in gen.ifs]
+    if any(v is None for v in kept):
+      raise AnalysisError("update_new_rows_map: cannot tell whether the filter %s keeps negative "
+                          "ids" % short(gen.ifs[kept.index(None)]))
+    ok = all(kept)
   run.ob(R3, up.qualname, "map.update((t, f) for (t, f) in zip(temp_row_ids, final_row_ids) if t "
          "and t < 0)", "every negative requested id is mapped to the id filled in at the same "
          "position", ok, fi=up.fi)
   ps = tr.fi.params()
   tdu = DefUse(tr)
   rets = H.return_values(tr, tdu, H.ReachDefs(tr, tdu))
-  ok = False
-  if len(rets) == 1 and isinstance(rets[0][1], ast.ListComp) and \
-      len(rets[0][1].generators) == 1:
-    lc = rets[0][1]
-    gen = lc.generators[0]
-    v = text(gen.target)
-    mp = table_map(tr)
-    ok = H.canon(tr, gen.iter) == ps[2] and not gen.ifs and isinstance(lc.elt, ast.Call) and \
-        isinstance(lc.elt.func, ast.Attribute) and lc.elt.func.attr == "get" and \
-        isinstance(lc.elt.func.value, ast.Attribute) and lc.elt.func.value.attr in mp and \
-        [text(x) for x in lc.elt.args] == [v, v] and not lc.elt.keywords
-  elif not (len(rets) == 1 and isinstance(rets[0][1], (ast.ListComp, ast.Call, ast.Name,
-                                                         ast.List, ast.GeneratorExp))):
-    raise AnalysisError("translate_new_row_ids: returned value not recognised")
+  if not (len(rets) == 1 and isinstance(rets[0][1], (ast.ListComp, ast.GeneratorExp)) and
+          len(rets[0][1].generators) == 1) and \
+      not (len(rets) == 1 and isinstance(rets[0][1], ast.Call) and
+           dotted(rets[0][1].func) in ("list", "tuple") and len(rets[0][1].args) == 1 and
+           isinstance(rets[0][1].args[0], (ast.ListComp, ast.GeneratorExp))):
+    raise AnalysisError("translate_new_row_ids: returned value is not a per-id comprehension "
+                        "(or loop) over the row ids")
+  lc = rets[0][1] if not isinstance(rets[0][1], ast.Call) else rets[0][1].args[0]
+  gen = lc.generators[0]
+  v = text(gen.target)
+  e = lc.elt
+  b = None
+  elt_ok = False
+  if isinstance(e, ast.Call) and isinstance(e.func, ast.Attribute) and e.func.attr == "get":
+    b = map_attr(tr, e.func.value)
+    elt_ok = [text(x) for x in e.args] == [v, v] and not e.keywords
+  elif isinstance(e, ast.IfExp) and isinstance(e.test, ast.Compare) and len(e.test.ops) == 1 and \
+      isinstance(e.test.ops[0], (ast.In, ast.NotIn)) and text(e.test.left) == v:
+    b = map_attr(tr, e.test.comparators[0])
+    hit, miss = (e.body, e.orelse) if isinstance(e.test.ops[0], ast.In) else (e.orelse, e.body)
+    elt_ok = isinstance(hit, ast.Subscript) and map_attr(tr, hit.value) == b and \
+        text(hit.slice) == v and text(miss) == v
+  if b is None:
+    raise AnalysisError("translate_new_row_ids: element %s is not a lookup in the per-table map"
+                        % short(e))
+  ok = H.canon(tr, gen.iter) == ps[2] and not tdu.rebinders(ps[2]) and not gen.ifs and elt_ok
   run.ob(R3, tr.qualname, "[map.get(r, r) for r in row_ids]", "translation keeps positions, maps "
          "known temporary ids and leaves every other id unchanged", ok, fi=tr.fi)
+  run.ob(R3, "action_summary.ActionSummary", "update_new_rows_map / translate_new_row_ids share "
+         "self._forTable(table_id).%s" % a, "ids recorded for a table are "
+         "looked up in the same table's map", a == b, nontrivial=True)
 
 
 U = "sandbox/grist/useractions.py"
